@@ -146,6 +146,9 @@ TWINS = [
        "every module replaced by ast.unparse of itself: comments gone, all line "
        "numbers and the formatting changed, no token of the program changed",
        [{"glob": "pytato/**/*.py", "transform": "unparse"}]),
+    _t("reverse-keyword-arguments",
+       "the keyword arguments of every call in the package written in reverse order",
+       [{"glob": "pytato/**/*.py", "transform": "reverse_keywords"}]),
     _t("rename-all-locals",
        "every local variable of every function in the package renamed (suffix _r)",
        [{"glob": "pytato/**/*.py", "transform": "rename_all_locals"}]),
